@@ -36,13 +36,13 @@ type GenParams struct {
 	Guards        Guards
 }
 
-var pageSizes = []int{4096, 1024, 2048, 8192, 16384, 512}
+var pageSizes = []int{4096, 1024, 2048, 8192, 16384, 32768, 65536}
 
 // GenConfig draws a swarm configuration. Index 0 of every choice is the
 // plainest setting.
 func GenConfig(t *sim.Tape) Config {
 	var c Config
-	c.PageSize = pageSizes[t.Pick(4, 6, 3, 2, 1)]
+	c.PageSize = pageSizes[t.Pick(16, 24, 12, 8, 4, 1, 1)]
 	if t.Chance(1, 2) {
 		c.Freelist = "hashmap"
 	} else {
